@@ -17,6 +17,7 @@ RULE = (
     "utils.xor, netbios_encode/decode, pack/unpack (+ the pN/uN partials), is_stager_x86/x64, random_stager_uri "
     "(random.choice scripted) and BeaconCapture.find_staged_beacon and compared with per-byte reference codecs and an "
     "independent checksum8. non-trivial = data non-empty / value non-zero / URI classified as a stager by either side"
+    '. Added: buffers > 64 KiB, every NetBIOS offset, signed fixed-width helpers, long requested stager lengths, non-ASCII URIs, request verbs and composite request targets at the staged-beacon gate. '
 )
 ASSUMPTIONS = [
     "URIs contain no line terminators (a request line cannot carry one; `$` in the x64 pattern would accept a trailing LF)",
